@@ -961,6 +961,104 @@ WIRING_SITES = [
     ('WavelengthGroup.add_wavelength', 'Wavelength.__init__',
      {'value': 'value', 'is_primary': 'is_primary', 'unit': 'unit'}),
 ]
+WIRING_SITES += [
+    ('PickupManager.add', 'Pickup.__init__',
+     {'self.optic': 'optic', 'source_surface_idx': 'source_surface_idx',
+      'attr_type': 'attr_type', 'target_surface_idx': 'target_surface_idx',
+      'scale': 'scale', 'offset': 'offset'}),
+    ('SolveManager.add', 'SolveFactory.create_solve',
+     {'self.optic': 'optic', 'solve_type': 'solve_type',
+      'surface_idx': 'surface_idx', '*args': '*', '**kwargs': '**'}),
+    ('SolveFactory.create_solve', 'MarginalRayHeightSolve.__init__',
+     {'optic': 'optic', 'surface_idx': 'surface_idx', '*args': '*',
+      '**kwargs': '**'}),
+    ('Optic.set_radius', 'StandardGeometry.__init__',
+     {'cs': 'coordinate_system', 'value': 'radius', '0': 'conic'}),
+]
+_ID = lambda *names: {n: n for n in names}       # noqa: E731
+INIT_STORES = {
+    'Pickup.__init__': (_ID('optic', 'source_surface_idx', 'attr_type',
+                            'target_surface_idx', 'scale', 'offset'), None),
+    'MarginalRayHeightSolve.__init__': (_ID('optic', 'surface_idx', 'height'),
+                                        None),
+    'CoordinateSystem.__init__': (_ID('x', 'y', 'z', 'rx', 'ry', 'rz',
+                                      'reference_cs'), None),
+    'BaseGeometry.__init__': ({'cs': 'coordinate_system'}, None),
+    'StandardGeometry.__init__': ({'radius': 'radius', 'k': 'conic'},
+                                  'super().__init__(coordinate_system)'),
+    'Plane.__init__': ({'radius': 'np.inf'},
+                       'super().__init__(coordinate_system)'),
+    'NewtonRaphsonGeometry.__init__': (
+        _ID('tol', 'max_iter'),
+        'super().__init__(coordinate_system, radius, conic)'),
+    'EvenAsphere.__init__': (
+        {'c': 'coefficients'},
+        'super().__init__(coordinate_system, radius, conic, tol, max_iter)'),
+    'PolynomialGeometry.__init__': (
+        {}, 'super().__init__(coordinate_system, radius, conic, tol, max_iter)'),
+    'ChebyshevPolynomialGeometry.__init__': (
+        _ID('norm_x', 'norm_y'),
+        'super().__init__(coordinate_system, radius, conic, tol, max_iter)'),
+    'Surface.__init__': (_ID('geometry', 'material_pre', 'material_post',
+                             'is_stop', 'aperture', 'coating', 'bsdf',
+                             'is_reflective'), None),
+    'IdealMaterial.__init__': ({'index': 'n', 'absorp': 'k'}, None),
+    'Aperture.__init__': ({'ap_type': 'aperture_type', 'value': 'value',
+                           'object_space_telecentric':
+                           'object_space_telecentric'}, None),
+}
+
+
+def init_stores(ctx):
+    P = ctx.P
+    res = Result('INIT-STORES', 'constructors of the prescription objects '
+                 'keep each argument in the attribute the rest of the '
+                 'library reads it from, and hand the remaining arguments to '
+                 'the base class in its parameter order')
+    for q, (want, sup) in INIT_STORES.items():
+        f = P.func(q)
+        res.saw(f)
+        got = {}
+        for st in f.node.body:
+            if isinstance(st, ast.Assign) and isinstance(
+                    st.targets[0], ast.Attribute) and \
+                    unparse(st.targets[0].value) == 'self':
+                got[st.targets[0].attr] = unparse(st.value)
+        bad = {a: (v, got.get(a)) for a, v in want.items() if got.get(a) != v}
+        sups = [unparse(c) for c in ast.walk(f.node)
+                if isinstance(c, ast.Call) and
+                unparse(c.func) == 'super().__init__']
+        if sup is not None and sup not in sups:
+            bad['super().__init__'] = (sup, sups)
+        if sup is not None and not bad:
+            # positional arguments reach the base-class parameter of the same
+            # name
+            cn = q.split('.')[0]
+            base = None
+            for k in P.mro(cn)[1:]:
+                if '__init__' in P.classes[k].methods:
+                    base = P.classes[k].methods['__init__']
+                    break
+            call = [c for c in ast.walk(f.node) if isinstance(c, ast.Call)
+                    and unparse(c.func) == 'super().__init__'][0]
+            if base is not None:
+                for i, a in enumerate(call.args):
+                    if i >= len(base.params) or unparse(a) != base.params[i]:
+                        bad[f'super arg {i}'] = (
+                            base.params[i] if i < len(base.params) else '?',
+                            unparse(a))
+        if bad:
+            res.fail(ctx.finding(
+                'INIT-STORES', f, f.node,
+                f'{q}: ' + '; '.join(f'{a}: expected {e}, found {n}'
+                                     for a, (e, n) in sorted(bad.items())),
+                construct=f'{q} stores'))
+        else:
+            res.ok(f'{q}: ' + ', '.join(f'{a}<-{v}' for a, v in want.items())
+                   + (f'; {sup}' if sup else ''))
+    return res
+
+
 WIRING_DEFAULTS = [
     ('SurfaceFactory._configure_cs', 'dx', '0'),
     ('SurfaceFactory._configure_cs', 'dy', '0'),
@@ -1014,5 +1112,5 @@ def arg_wiring_rule(ctx):
     return res
 
 
-RULES = [arg_wiring_rule, scalar_conv, placement, thickness_edit, media_chain, one_stop,
+RULES = [arg_wiring_rule, init_stores, scalar_conv, placement, thickness_edit, media_chain, one_stop,
          setter_writes, pickup, solve]
